@@ -66,8 +66,10 @@ def install(codes, mode="line"):
 class SchedLock:
     """threading.Lock look-alike handed to the pool through lock_generator=."""
 
-    def __init__(self, sched, name="lock"):
+    def __init__(self, sched, name="lock", reentrant=False):
         self.sched = sched
+        self.reentrant = reentrant
+        self.depth = 0
         self.owner = None
         self.name = name
         self.waiters = []
@@ -86,8 +88,12 @@ class SchedLock:
             return True
         while True:
             s.point(("lock-acquire", self.name))
+            if self.reentrant and self.owner == me:
+                self.depth += 1
+                return True
             if self.owner is None:
                 self.owner = me
+                self.depth = 1
                 s.on_lock_acquired(me, self)
                 return True
             if not blocking:
@@ -99,7 +105,11 @@ class SchedLock:
     def release(self):
         s = self.sched
         me = s.me()
+        if self.reentrant and self.depth > 1 and self.owner == me:
+            self.depth -= 1
+            return
         self.owner = None
+        self.depth = 0
         if me is None or not s.active:
             return
         for w in self.waiters:
@@ -114,6 +124,23 @@ class SchedLock:
 
     def __exit__(self, *a):
         self.release()
+
+
+class ThreadingShim:
+    """Stands in for the `threading` module global of pymemcache.pool while a case runs: locks created through it are
+    scheduler-aware, everything else is the real module."""
+
+    def __init__(self, sched, real):
+        self._sched, self._real = sched, real
+
+    def Lock(self):
+        return SchedLock(self._sched, "pool")
+
+    def RLock(self):
+        return SchedLock(self._sched, "pool", reentrant=True)
+
+    def __getattr__(self, name):
+        return getattr(self._real, name)
 
 
 class Sched:
